@@ -180,7 +180,10 @@ def _map_child(case, storage, mode, root, log, cleanup, out, crash_at=None, tear
             for fr in tb:
                 if "/pipefunc/" in fr.filename:
                     where = f"{os.path.basename(fr.filename)}:{fr.name}"
-            res["exc"] = {"type": type(e).__name__, "msg": str(e)[:300], "where": where}
+            # (the head AND the tail of the message: pipefunc's refusal to continue on another run's folder ends with
+            #  "cannot use `cleanup=False`" after a rendering of both input sets, which can be long)
+            m_ = str(e)
+            res["exc"] = {"type": type(e).__name__, "msg": m_ if len(m_) <= 600 else m_[:300] + " ... " + m_[-300:], "where": where}
             code = 1
         if out:
             with open(out, "w") as f:
